@@ -824,6 +824,11 @@ func execStringsPadding(fn parser.Function, args []value.Primary, direction Dire
 		return args[0], nil
 	}
 
+	if padstrLen < 1 {
+		// nothing to pad with
+		return args[0], nil
+	}
+
 	padLen := length - strLen
 	repeat := int(math.Ceil(float64(padLen) / float64(padstrLen)))
 	padding := strings.Repeat(padstr, repeat)
